@@ -46,6 +46,9 @@ Canvas(cshape, imgs) ==
           LET v == [a \in 1..Len(w) |-> w[a] - imgs[i].off[a]]
           IN IF \A a \in 1..Len(w) : 0 <= v[a] /\ v[a] < imgs[i].shape[a] THEN At(imgs[i].data, imgs[i].shape, v) ELSE 0])]
 
+RECURSIVE HalvedUp(_, _)
+HalvedUp(n, k) == IF k = 0 THEN n ELSE HalvedUp((n + 1) \div 2, k - 1)
+
 \* ---- verdicts on recorded operations.  res is logged scaled by e.scale (so block means are integers)
 Verdict(e) ==
   CASE e.op = "refine" ->    (IF e.rshape # [i \in 1..Len(e.shape) |-> e.shape[i] * e.f] THEN {"ExtentKept"} ELSE {})
@@ -54,7 +57,12 @@ Verdict(e) ==
                         \cup (IF e.back # e.data THEN {"RefineThenCoarsenIsIdentity"} ELSE {})
     [] e.op = "coarsen" ->   (IF e.res # BlockSum(e.data, e.shape, [i \in 1..Len(e.shape) |-> e.f]) THEN {"CoarseningAverages"} ELSE {})
                         \cup (IF e.dims_kept = 0 THEN {"ExtentKept"} ELSE {})
-    [] e.op = "coarsen_odd" -> (IF e.intexp <= -9 THEN {} ELSE {"IntegralConserved"}) \cup (IF e.dims_kept = 0 THEN {"ExtentKept"} ELSE {})
+    \* coarsening by e.lev levels of extents that are not multiples of 2^lev: ceil(ceil(n/2)/2..) voxels over the same extent
+    [] e.op = "coarsen_odd" -> (IF e.raised = 1 THEN {"CoarseningTotal"}
+                                ELSE (IF e.intexp <= -9 THEN {} ELSE {"IntegralConserved"})
+                                     \cup (IF e.dims_kept = 0 THEN {"ExtentKept"} ELSE {})
+                                     \cup (IF e.rshape # [i \in 1..Len(e.shape) |-> HalvedUp(e.shape[i], e.lev)] THEN {"CoarseShape"} ELSE {})
+                                     \cup (IF e.constant = 1 /\ e.const_kept = 0 THEN {"ConstantFieldPreserved"} ELSE {}))
     [] e.op = "area" ->      (IF e.down = 1 /\ e.res # BlockSum(e.data, e.shape, e.k) THEN {"AreaResizeAverages"} ELSE {})
                         \cup (IF e.down = 0 /\ e.res # Repeat(e.data, e.shape, e.k) THEN {"AreaResizeRepeats"} ELSE {})
                         \cup (IF e.dims_kept = 0 THEN {"ExtentKept"} ELSE {})
